@@ -585,7 +585,9 @@ def run(out, tier):
         "input_distribution": {"verdicts": dist, "classes_reported_by_impl": cls_count, "known_finding_hits": known_classes},
         "inprocess_tie": inproc,
         "cli_tie": cli,
-        "cycle_theorem": "see coq/properties/C11.v (the comment above C11_cycle_*)",
+        "cycle_theorem": "faithful: C11_find_cycle_iff / C11_cycle_iff are proved for the three-colour DFS itself, any graph size "
+                         "(no bounded sweep, no fallback); C11_find_cycle_fuel: the fuel never runs out",
+        "refuted_witnesses_replayed_on_impl": "corpus/C11/graphs.jsonl lines 1-4 are the witnesses of C11_*_refuted; each must show up as its KNOWN-FINDING",
     })
     out.assumptions += [
         "graphs that load: syntactic rejections of the loader are C16's subject; output types are file/dir/docker",
@@ -656,6 +658,8 @@ def buildable(g):
         if n["k"] == "T":
             if n["nocmd"] and all_outs(n):
                 return False              # declares outputs but has nothing that could produce them
+            if any(not walk_rel(i.split("/")) for i in n["ins"]):
+                return False              # an input naming the package directory itself (a/..) fails at hashing time
             for t, i in all_outs(n):
                 if t == "k":
                     return False
